@@ -2,7 +2,7 @@
 //! my fvar/avar encoders → allsorts) against an exact-rational reference.
 
 use crate::engine::{CaseResult, Ctx, Fail, Property, Rec};
-use crate::fontgen::var::{avar_table, fvar_table, AxisModel};
+use crate::fontgen::var::{avar_table, fvar_table, fvar_table_gap, AxisModel};
 use allsorts::binary::read::ReadScope;
 use allsorts::tables::variable_fonts::avar::AvarTable;
 use allsorts::tables::variable_fonts::fvar::FvarTable;
@@ -27,6 +27,8 @@ pub struct Axis {
 pub struct Case {
     pub axes: Vec<Axis>,
     pub axis_size_extra: u16,
+    /// filler bytes between the fvar header and the axes array (axesArrayOffset = 16 + gap)
+    pub header_gap: u16,
     /// avar present for the font at all (if false, every axis.avar is ignored)
     pub with_avar: bool,
 }
@@ -143,11 +145,13 @@ pub fn case_strategy() -> impl Strategy<Value = Case> {
     (
         proptest::collection::vec(axis(), 1..5),
         prop_oneof![3 => Just(0u16), 1 => 1u16..9],
+        prop_oneof![4 => Just(0u16), 1 => prop_oneof![Just(2u16), Just(4u16), Just(20u16), 1u16..40]],
         proptest::bool::weighted(0.7),
     )
-        .prop_map(|(axes, axis_size_extra, with_avar)| Case {
+        .prop_map(|(axes, axis_size_extra, header_gap, with_avar)| Case {
             axes,
             axis_size_extra,
+            header_gap,
             with_avar,
         })
 }
@@ -222,7 +226,7 @@ pub fn check_case(case: &Case, rec: &mut Rec) -> CaseResult {
             name_id: 256 + i as u16,
         })
         .collect();
-    let fvar_bytes = fvar_table(&axes_model, &[], case.axis_size_extra);
+    let fvar_bytes = fvar_table_gap(&axes_model, &[], case.axis_size_extra, case.header_gap);
     let identity = vec![(-16384i16, -16384i16), (0, 0), (16384, 16384)];
     let maps: Vec<Vec<(i16, i16)>> = case
         .axes
@@ -401,6 +405,7 @@ pub fn check_case(case: &Case, rec: &mut Rec) -> CaseResult {
     rec.set_nontrivial(nontrivial);
     rec.class_if(case.with_avar, "with-avar");
     rec.class_if(case.axis_size_extra > 0, "axisSize>20");
+    rec.class_if(case.header_gap > 0, "axesArrayOffset>16");
     Ok(())
 }
 
